@@ -371,6 +371,9 @@ func init() {
 	// the same SEX value several times, with and without subordinate lines; lines after a trailer record
 	adversarial = append(adversarial, "0 @I1@ INDI\n1 SEX M\n2 SOUR @S1@\n3 PAGE 4\n0 @I2@ INDI\n1 SEX M\n2 NOTE x\n1 SEX F\n0 @I3@ INDI\n1 SEX M\n1 SEX F\n2 NOTE y\n1 SEX U\n1 SEX U\n2 X z\n",
 		"0 HEAD\n0 TRLR\n0 @I1@ INDI\n1 NAME x\n", "0 TRLR\n1 X y\n0 A\n1 B\n", "0 HEAD\n0 @I1@ INDI\n0 TRLR\n\n0 HEAD\n0 @I2@ INDI\n1 SEX M\n0 TRLR\n")
+	// long lines that cannot be parsed and consist of UTF-8 continuation bytes or other binary data (error messages quote the line)
+	adversarial = append(adversarial, strings.Repeat("\xa0", 130)+"\n", "0 HEAD\n"+strings.Repeat("\x80\xbf", 100)+"\n1 X\n", "0 A\n1 HUSB "+strings.Repeat("\x9f", 200)+"\n",
+		"0 A\n5 "+strings.Repeat("\xbf", 300)+"\n", strings.Repeat("\xff\xfe", 90)+"\n0 A\n")
 	// descents past level 99 and 100 (three-digit levels) and back: the normal form must survive re-encoding
 	deep := ""
 	for k := 0; k <= 103; k++ {
